@@ -1,19 +1,20 @@
 SPECIFICATION TrSpec
 CONSTANTS
     TopicOrder <- MCTopicOrder
-    IdOrder <- MCIdOrder4
+    IdOrder <- MCIdOrder3
     Handlers = {"h1", "h2", "h3"}
-    Publishers = {"p1"}
+    Publishers = {"p1", "p2", "p3", "p4"}
     MaxCollects = 1000000
     MaxRegOps = 1000000
-    FreeRunning = FALSE
+    FreeRunning = TRUE
 INVARIANTS
     TopicLevelIsMax
     EventStatesMin
     PrevLevelChain
     NoCrossTopic
     QueueIsSuffix
-    AggSummariesSound
+    PerPublisherFifo
+    NoDuplicateDelivery
 CONSTRAINT HW
 POSTCONDITION Accepted
 CHECK_DEADLOCK FALSE
